@@ -61,7 +61,7 @@ def spectrum(rng, d, pattern):
 def required_cells(tier):
     return {"bath:rotated-degenerate": 20, "bath_invariant": 200,
             "method:tempo": 3, "method:pt": 3, "method:meanfield": 2,
-            "meanfield:two-systems": 2, "pt:reimported": 2, "pt:used-before": 3,
+            "meanfield:two-systems": 2, "pt:reimported": 2, "pt:used-before": 3, "bath:large-norm": 20,
             "cov:degenerate": 3, "guessed-parameters": 4,
             "initial-state:non-contiguous": 6,
             "cov:nearly-diagonal:pt": 2,
@@ -107,6 +107,13 @@ def run_bath(case):
             sx = np.array([[0, 0.5], [0.5, 0]], complex)
             oper = np.kron(sx, np.eye(2)) * float(rng.uniform(0.5, 2.0))
             o = np.linalg.eigvalsh(oper)
+        big = 1.0
+        if n % 8 in (3, 4) and ukind != "near_identity":
+            # the same operator in a much smaller unit (a coupling operator
+            # of norm 1e3..3e5: magnitudes are a matter of units)
+            big = float(10 ** rng.uniform(3.0, 5.5))
+            oper, o = oper * big, o * big
+            cells.append("bath:large-norm")
         if n % 2 == 0:
             oper = (oper + oper.conj().T) / 2
         # (odd n: the operator as it comes out of V D V^dagger in floating
@@ -126,14 +133,14 @@ def run_bath(case):
         n_ok += 1
         u, dm = b.unitary_transform, b.coupling_operator
         rec_dev = float(np.abs(u @ dm @ u.conj().T - oper).max())
-        if rec_dev > 1e-9:
+        if rec_dev > 1e-9 * big:
             violations.append({
                 "what": f"U D U^dag deviates from the operator by "
                         f"{rec_dev:.2e} (d={d}, {pattern}, {ukind})",
                 "mechanism": "bath-reconstruction", "detail": {"o": o}})
         # eigenvalues are those of the operator
         ev = np.sort(np.real(np.diag(dm)))
-        if np.abs(ev - np.sort(o)).max() > 1e-9:
+        if np.abs(ev - np.sort(o)).max() > 1e-9 * big:
             violations.append({"what": "eigenvalues differ",
                                "mechanism": "bath-eigenvalues",
                                "detail": {"got": ev, "expected": np.sort(o)}})
